@@ -273,6 +273,11 @@ pub fn catalogue(thorough: bool) -> Vec<Spec> {
         ("readf+reada", vec![Op::Read("/f"), Op::Read("/a")]),
         ("regf+sendf", vec![Op::RegisterFunction("/f"), Op::Send("/f", json!(1))]),
         ("wc+rb", vec![Op::Send("/a/c", json!(4)), Op::Read("/a/b")]),
+        // observers that read two keys of a concurrent root merge in both orders
+        ("rab+rx", vec![Op::Read("/a/b"), Op::Read("/x")]),
+        ("rx+rab", vec![Op::Read("/x"), Op::Read("/a/b")]),
+        ("rootmerge2", vec![Op::Send("", json!({"x": 6, "a": {"b": 9}}))]),
+        ("rroot", vec![Op::Read("")]),
     ];
     let mut out = Vec::new();
     for i in 0..menu.len() {
@@ -283,7 +288,7 @@ pub fn catalogue(thorough: bool) -> Vec<Spec> {
             });
         }
     }
-    let tri = if thorough { menu.len() } else { 7 };
+    let tri = if thorough { menu.len() } else { 6 };
     for i in 0..tri {
         for j in i + 1..tri {
             for k in j + 1..tri {
